@@ -19,8 +19,8 @@ from harness.par import pmap
 TIERS = {
     "quick": dict(MaxWords=3, Lens={1, 2, 3}, Kinds={"h", "n", "a"}, Widths={0, 1, 2, 3, 4, 5, 6, 8}, Offs={0, 2, 3},
                   Mds={True, False}),
-    # (4 words x 9 word types x 8 widths x 3 x 3 offsets x 2 = 1.06 M behaviours; the 2.6 M of the first version needed 11 GB and 3 h)
-    "thorough": dict(MaxWords=4, Lens={1, 2, 4}, Kinds={"h", "n", "a"}, Widths={0, 1, 2, 3, 5, 6, 8, 12},
+    # (4 words x 9 word types x 9 widths x 3 x 3 offsets x 2 = 1.2 M behaviours, explored one width at a time: all at once needed 19 GB)
+    "thorough": dict(MaxWords=4, Lens={1, 2, 4}, Kinds={"h", "n", "a"}, Widths={0, 1, 2, 3, 4, 5, 6, 8, 12},
                      Offs={0, 2, 3}, Mds={True, False}),
 }
 MODEL_INVS = ["Lossless", "NoEmptyLine", "OneLine", "EscapeExact", "BoundedK", "MaximalK", "Bounded13",
@@ -336,28 +336,14 @@ def run(tier: str) -> int:
                 "paragraph families; non-trivial = distinct observation with at least one line break or an escape")
     chk.assumptions = ["projection harness/vocab.py (concretise / abstract_lines) is trusted",
                        "TLC 1.8.0 evaluates the predicates of spec/WrapTrace.tla correctly"]
-    consts = dict(TIERS[tier], DoDump=True)
-    # ---- leg A ----
-    res = tlc.run_tlc("Wrap", tlc.cfg_text(constants=consts, invariants=MODEL_INVS), coverage=True, timeout=1500)
-    chk.add_tlc(res)
-    for act in ("Place", "Break", "Finish", "NoWrap"):
-        if res.coverage.get(act, (0, 0))[0] == 0:
-            raise tlc.TlcError(f"vacuous model: action {act} never taken")
-    behaviours = [r for r in res.reports if r and r[0] == "B"]
-    chk.notes["model_behaviours"] = len(behaviours)
-    chk.notes["model_bounded_violations_all_D13"] = sum(1 for b in behaviours if not b[7])
-    chk.notes["model_maximal_violations_all_D13"] = sum(1 for b in behaviours if not b[8])
-    behaviours.sort(key=lambda b: json.dumps(b))
-    # ---- leg B ----
-    cases = [(cid, b[1], b[2], b[3], b[4], b[5], b[6]) for cid, b in enumerate(behaviours)]
-    # negative widths cannot be written in a TLC cfg file: every width-0 behaviour is also observed at width -1 and -7
-    # (same machine behaviour: "width <= 0 = no wrapping"); the trace carries the negative width
-    twins = [(len(cases) + k, c[1], wneg, c[3], c[4], c[5], c[6]) for k, (c, wneg) in
-             enumerate((c, wneg) for c in cases if c[2] == 0 for wneg in (-1, -7))]
-    cases += twins
+    # ---- legs A, B, C: one TLC instance per width in the thorough tier (1.06 M behaviours at once needed 19 GB) ----
+    allw = sorted(TIERS[tier]["Widths"])
+    wgroups = [set(allw)] if tier == "quick" else [{w} for w in allw]
+    taken = {}
     traces, meta, alt = [], {}, {}
     tid = 0
     sampled = []
+    seg_meta = {}
 
     def flush():
         """leg C for what has been collected so far (keeps the memory of the thorough tier bounded)"""
@@ -384,29 +370,55 @@ def run(tier: str) -> int:
         meta.clear()
         alt.clear()
         seg_meta.clear()
-    seg_meta = {}
     CH = 200000
-    for lo in range(0, len(cases), CH):
-        part = cases[lo: lo + CH]
-        for (cid, words, width, ic, so, md, mlines), (_, toks, obs) in zip(part, pmap(_observe, part)):
-            seen = {}
-            for a in obs:
-                chk.evaluations += 1
-                if "exc" in a:
-                    chk.violation("NoException", dict(fn=a["fn"], exc=a["exc"], text=" ".join(toks), width=width, ic=ic, so=so))
-                    continue
-                key = json.dumps([a["ok"], a["out"], a["linelen"], a["ind"], a.get("virtual_ic")])
-                if key in seen:
-                    meta[seen[key]]["fn"] += "," + a["fn"]
-                    continue
-                tid += 1
-                seen[key] = tid
-                traces.append(_mk_trace(tid, words, width, a.get("virtual_ic", ic), so, md, a, impl="wrap" if "virtual_ic" not in a else "none"))
-                meta[tid] = dict(fn=a["fn"], impl="wrap" if "virtual_ic" not in a else "none", text=" ".join(toks), width=width, ic=a.get("virtual_ic", ic), so=so, md=md,
-                                 output=a["raw"], model_lines=mlines)
-                if len(a["out"]) > 1 or any(t["e"] for l in a["out"] for t in l):
-                    chk.nontriv(("w", cid, key))
-        flush()
+    cid0 = 0
+    for k_ in ("model_behaviours", "model_bounded_violations_all_D13", "model_maximal_violations_all_D13"):
+        chk.notes[k_] = 0
+    for ws in wgroups:
+        res = tlc.run_tlc("Wrap", tlc.cfg_text(constants=dict(TIERS[tier], Widths=ws, DoDump=True), invariants=MODEL_INVS), coverage=True, timeout=1500)
+        chk.add_tlc(res)
+        for act in ("Place", "Break", "Finish", "NoWrap"):
+            taken[act] = taken.get(act, 0) + res.coverage.get(act, (0, 0))[0]
+        behaviours = [r for r in res.reports if r and r[0] == "B"]
+        del res
+        chk.notes["model_behaviours"] += len(behaviours)
+        chk.notes["model_bounded_violations_all_D13"] += sum(1 for b in behaviours if not b[7])
+        chk.notes["model_maximal_violations_all_D13"] += sum(1 for b in behaviours if not b[8])
+        behaviours.sort(key=lambda b: json.dumps(b))
+        # ---- leg B ----
+        cases = [(cid0 + cid, b[1], b[2], b[3], b[4], b[5], b[6]) for cid, b in enumerate(behaviours)]
+        del behaviours
+        # negative widths cannot be written in a TLC cfg file: every width-0 behaviour is also observed at width -1 and -7
+        # (same machine behaviour: "width <= 0 = no wrapping"); the trace carries the negative width
+        twins = [(cid0 + len(cases) + k, c[1], wneg, c[3], c[4], c[5], c[6]) for k, (c, wneg) in
+                 enumerate((c, wneg) for c in cases if c[2] == 0 for wneg in (-1, -7))]
+        cases += twins
+        cid0 += len(cases)
+        for lo in range(0, len(cases), CH):
+            part = cases[lo: lo + CH]
+            for (cid, words, width, ic, so, md, mlines), (_, toks, obs) in zip(part, pmap(_observe, part)):
+                seen = {}
+                for a in obs:
+                    chk.evaluations += 1
+                    if "exc" in a:
+                        chk.violation("NoException", dict(fn=a["fn"], exc=a["exc"], text=" ".join(toks), width=width, ic=ic, so=so))
+                        continue
+                    key = json.dumps([a["ok"], a["out"], a["linelen"], a["ind"], a.get("virtual_ic")])
+                    if key in seen:
+                        meta[seen[key]]["fn"] += "," + a["fn"]
+                        continue
+                    tid += 1
+                    seen[key] = tid
+                    traces.append(_mk_trace(tid, words, width, a.get("virtual_ic", ic), so, md, a, impl="wrap" if "virtual_ic" not in a else "none"))
+                    meta[tid] = dict(fn=a["fn"], impl="wrap" if "virtual_ic" not in a else "none", text=" ".join(toks), width=width, ic=a.get("virtual_ic", ic), so=so, md=md,
+                                     output=a["raw"], model_lines=mlines)
+                    if len(a["out"]) > 1 or any(t["e"] for l in a["out"] for t in l):
+                        chk.nontriv(("w", cid, key))
+            flush()
+        del cases
+    for act in ("Place", "Break", "Finish", "NoWrap"):
+        if taken.get(act, 0) == 0:
+            raise tlc.TlcError(f"vacuous model: action {act} never taken")
     # ---- fill_text / plaintext family ----
     fcases = [(i, ls, w) for i, (ls, w) in enumerate(_fill_text_cases(tier))]
     for cid, words, width, toks, obs in pmap(_observe_fill, fcases):
@@ -529,7 +541,7 @@ def run(tier: str) -> int:
     for smp in sampled:
         chk.sample(smp)
     chk.exhaustive = True
-    chk.explanation = (f"TLC explored every behaviour of Wrap.tla for constants {sorted((k, sorted(v) if isinstance(v, set) else v) for k, v in consts.items())}; "
+    chk.explanation = (f"TLC explored every behaviour of Wrap.tla for constants {sorted((k, sorted(v) if isinstance(v, set) else v) for k, v in TIERS[tier].items())}; "
                        "each was replayed into the real functions and the observations validated by WrapTrace.tla")
     return chk.finish()
 
